@@ -350,15 +350,31 @@ macro_rules! impl_dual_num_float {
                 <$float>::atanh(*self)
             }
             fn sph_j0(&self) -> Self {
-                if self.abs() < <$float>::EPSILON {
-                    1.0 - self * self / 6.0
+                if self.abs() < 0.3 {
+                    // ascending series in z = x^2: the closed form cancels catastrophically for small arguments
+                    let z = self * self;
+                    let s = -z / 1307674368000.0 + 1.0 / 6227020800.0;
+                    let s = s * z - 1.0 / 39916800.0;
+                    let s = s * z + 1.0 / 362880.0;
+                    let s = s * z - 1.0 / 5040.0;
+                    let s = s * z + 1.0 / 120.0;
+                    let s = s * z - 1.0 / 6.0;
+                    s * z + 1.0
                 } else {
                     self.sin() / self
                 }
             }
             fn sph_j1(&self) -> Self {
-                if self.abs() < <$float>::EPSILON {
-                    self / 3.0
+                if self.abs() < 0.3 {
+                    // ascending series in z = x^2: the closed form cancels catastrophically for small arguments
+                    let z = self * self;
+                    let s = -z / 22230464256000.0 + 1.0 / 93405312000.0;
+                    let s = s * z - 1.0 / 518918400.0;
+                    let s = s * z + 1.0 / 3991680.0;
+                    let s = s * z - 1.0 / 45360.0;
+                    let s = s * z + 1.0 / 840.0;
+                    let s = s * z - 1.0 / 30.0;
+                    (s * z + 1.0 / 3.0) * self
                 } else {
                     let sc = self.sin_cos();
                     let rec = self.recip();
@@ -366,8 +382,16 @@ macro_rules! impl_dual_num_float {
                 }
             }
             fn sph_j2(&self) -> Self {
-                if self.abs() < <$float>::EPSILON {
-                    self * self / 15.0
+                if self.abs() < 0.3 {
+                    // ascending series in z = x^2: the closed form cancels catastrophically for small arguments
+                    let z = self * self;
+                    let s = -z / 422378820864000.0 + 1.0 / 1587890304000.0;
+                    let s = s * z - 1.0 / 7783776000.0;
+                    let s = s * z + 1.0 / 51891840.0;
+                    let s = s * z - 1.0 / 498960.0;
+                    let s = s * z + 1.0 / 7560.0;
+                    let s = s * z - 1.0 / 210.0;
+                    (s * z + 1.0 / 15.0) * z
                 } else {
                     let sc = self.sin_cos();
                     let s2 = self * self;
